@@ -185,6 +185,7 @@ def params : Params := {
     ((.list, .list), ⟨.iter, .iter, .dispatch, .dispatch⟩)]
   mapDefault := ⟨.iter, .iter, .any, .any⟩
   mapBinaryGuard := true
+  mapDoubleKeyGuard := true
   binarySeesThroughPtr := true
 }
 
